@@ -586,6 +586,9 @@ func RunCheck(opts *CheckOpts) int {
 		if c.ReleasesLock {
 			g.Obls = append(g.Obls, releasesLockObligations(g, fn, k)...)
 		}
+		if len(c.Forbids) > 0 {
+			g.Obls = append(g.Obls, forbidsObligations(g, fn, k, c)...)
+		}
 		if c.HasErrorsFrom {
 			g.Obls = append(g.Obls, errorsFromObligations(prog, g, fn, k, c)...)
 		}
@@ -2096,6 +2099,41 @@ func releasesLockObligations(g *Gen, fn *ssa.Function, key string) []*Obligation
 	}
 	if n == 0 {
 		out = append(out, &Obligation{Name: ShortKey(key) + "#releaseslock", Kind: "releaseslock", Fn: key, Clause: "releaseslock: no return with the mutex still held", Reach: True, Goal: True, Gen: g})
+	}
+	return out
+}
+
+
+// forbidsObligations: structural obligation of `forbids A, B`: no call (static, invoke,
+// go or defer) of a callee with one of these names in the function body.
+func forbidsObligations(g *Gen, fn *ssa.Function, key string, c *Contract) []*Obligation {
+	bad := map[string]bool{}
+	for _, n := range c.Forbids {
+		bad[n] = true
+	}
+	var out []*Obligation
+	n := 0
+	for _, b := range fn.Blocks {
+		for _, in := range b.Instrs {
+			ci, ok := in.(ssa.CallInstruction)
+			if !ok {
+				continue
+			}
+			cc := ci.Common()
+			name := ""
+			if cc.IsInvoke() {
+				name = cc.Method.Name()
+			} else if f := cc.StaticCallee(); f != nil {
+				name = f.Name()
+			}
+			if bad[name] {
+				out = append(out, &Obligation{Name: fmt.Sprintf("%s#forbids.%d", ShortKey(key), n), Kind: "forbids", Fn: key, Clause: "forbids " + strings.Join(c.Forbids, ", ") + ": call of " + name, Pos: g.pos(in.Pos()), Reach: True, Goal: False, Gen: g})
+				n++
+			}
+		}
+	}
+	if n == 0 {
+		out = append(out, &Obligation{Name: ShortKey(key) + "#forbids", Kind: "forbids", Fn: key, Clause: "forbids " + strings.Join(c.Forbids, ", "), Reach: True, Goal: True, Gen: g})
 	}
 	return out
 }
